@@ -19,10 +19,15 @@ def dim_of(shape):
 
 
 def raw(n, lo=-1.0, hi=1.0):
+    # fill=st.nothing(): every entry is drawn independently (the default fill makes most entries of a long array equal,
+    # which skews constructions towards degenerate operators); very long arrays keep the default to stay inside
+    # Hypothesis' entropy budget.
+    kw = {"fill": st.nothing()} if n <= 512 else {}
     return hnp.arrays(
         np.float64,
         n,
         elements=st.floats(lo, hi, allow_nan=False, allow_infinity=False, width=64),
+        **kw,
     ).map(lambda a: [float(x) for x in a])
 
 
